@@ -16,11 +16,12 @@ from ..core import Tally  # noqa: F401
 from .. import tlc
 
 ENGINE = "scale"
-KINDS = ["bloom", "disk", "cbloom", "cms", "ebf", "rbf", "qf", "cko", "ccko"]
+KINDS = ["bloom", "disk", "cbloom", "cms", "ebf", "rbf", "qf", "cko", "ccko", "hh", "st", "bits"]
 SERVES = {"C01": ["bloom", "disk", "ebf"], "C02": ["cms"], "C03": ["cko", "ccko"], "C04": ["qf"], "C05": ["bloom", "disk", "cbloom", "cms", "ebf", "cko", "ccko"],
-          "C08": ["cbloom", "ccko"], "C09": ["ebf"], "C10": ["rbf"], "C11": ["disk"], "C12": ["bloom", "disk"], "C15": ["cko", "ccko"],
-          "C14": ["bloom", "disk", "cbloom", "cms", "ebf", "rbf", "qf", "cko", "ccko"]}
-NOAUX = {"ns": [], "q": 0, "lost": 0, "uniq": 0}
+          "C08": ["cbloom", "ccko"], "C09": ["ebf"], "C10": ["rbf"], "C11": ["disk"], "C12": ["bloom", "disk", "cbloom", "cms"], "C15": ["cko", "ccko"],
+          "C14": ["bloom", "disk", "cbloom", "cms", "ebf", "rbf", "qf", "cko", "ccko"], "C17": ["hh", "st"], "C20": ["bits"],
+          "C19": ["bloom", "disk", "cbloom", "cms", "ebf", "rbf", "qf", "cko", "ccko", "hh"]}
+NOAUX = {"ns": [], "q": 0, "lost": 0, "uniq": 0, "dump": 0}
 # "big" configurations: each crosses a block-size mark that a blocked / paged / buffered implementation would care about
 BIG = {
     "bloom": [(21020, 0.05), (7000, 0.01), (100000, 0.01), (3500, 0.01), (20000, 0.01)],   # 16384 B (= 4 x 4096), 8407 B, 119814 B, 4194 B, 23963 B
@@ -28,7 +29,10 @@ BIG = {
     "cbloom": [(3000, 0.01), (5000, 0.02), (1200, 0.05)],                                    # 28756 / 40712 / 7483 counters
     "cms": [(20000, 5), (1024, 8), (5000, 4)],
     "ebf": [(400, 0.01), (1500, 0.05)],
-    "rbf": [],
+    "rbf": [(400, 0.01), (1500, 0.05)],
+    "hh": [(100, 1000, 5), (20, 64, 4)],            # (number of hitters, width, depth)
+    "st": [(20, 1000, 5), (5, 50, 3)],              # (threshold, width, depth)
+    "bits": [32771, 65541, 524309],                # Bitarray sizes just past 4 KiB, 8 KiB, 64 KiB of storage
     "cko": [(20000, 4, 500, True), (500, 4, 500, False), (1500, 2, 300, False)],           # > 65536 slots; nearly full with max_swaps > 128
     "ccko": [(1024, 4, 500, True), (500, 4, 500, False), (20000, 4, 500, True)],           # >= 1024 buckets with automatic expansion
     "qf": [(8, True), (7, False), (8, False), (7, False), (8, False), (7, False), (9, False), (9, True)],   # dense, nearly full tables: long wrapping clusters
@@ -113,6 +117,21 @@ class Rec:
             tr.update(m=m, k=k, est=est, qmax=qmax)
             self.nkeys = est * 6 if big else rnd.randint(40, 160)
             self.posfn = lambda key: [h % m for h in probe.hashes(key)]
+        elif kind in ("hh", "st"):
+            par, w, d = self.cfg if big else rnd.choice([(5, 50, 3), (3, 20, 2), (10, 200, 4)])
+            self.args = dict(width=w, depth=d, hash_function=hf)
+            self.obj = P.HeavyHitters(num_hitters=par, **self.args) if kind == "hh" else P.StreamThreshold(threshold=par, **self.args)
+            tr.update(w=w, d=d, est=par)
+            self.nkeys = 1500 if big else rnd.randint(30, 120)
+            self.posfn = lambda key: [0]
+        elif kind == "bits":
+            from probables.utilities import Bitarray
+
+            n = self.cfg if big else rnd.choice([70, 257, 1000, 4099])
+            self.obj = Bitarray(n)
+            tr.update(m=n)
+            self.nkeys = 0
+            self.posfn = lambda key: [0]
         elif kind in ("cko", "ccko"):
             cls = P.CuckooFilter if kind == "cko" else P.CountingCuckooFilter
             if big:
@@ -134,8 +153,8 @@ class Rec:
             tr.update(q=q, auto=auto)
             self.nkeys = (7000 if auto else (1 << q) - 6) if big else rnd.randint(30, 400)
             self.posfn = lambda key: [fnv_1a_32(key, 0) >> 16, fnv_1a_32(key, 0) & 0xFFFF]
-        self.keys = mkkeys(rnd, self.nkeys, str(tr["id"]))
-        tr["pos"] = [self.posfn(k) for k in self.keys]
+        self.keys = mkkeys(rnd, self.nkeys, str(tr["id"])) if kind not in ("hh", "st") else [k if isinstance(k, str) else k.decode() for k in mkkeys(rnd, self.nkeys, str(tr["id"]))]
+        tr["pos"] = [self.posfn(k) for k in self.keys] or [[0]]
         self.out = {}
 
     # -- observation -----------------------------------------------------------------------------
@@ -160,6 +179,12 @@ class Rec:
             return res
         if kind in ("cko", "ccko"):
             return []
+        if kind in ("hh", "st"):
+            idx = {k: i + 1 for i, k in enumerate(self.keys)}
+            tab = obj.heavy_hitters if kind == "hh" else obj.meets_threshold
+            return [[idx[k], v] for k, v in tab.items()]
+        if kind == "bits":
+            return bits_of(bytes(obj.bitarray), tr["m"])
         return [[h >> 16, h & 0xFFFF] for h in obj.get_hashes()]
 
     def aux(self, lost=0):
@@ -177,10 +202,14 @@ class Rec:
         return a
 
     def probes(self, idxs):
+        if self.kind in ("hh", "st"):
+            return []
+        if self.kind == "bits":
+            return [[j, int(self.obj.check_bit(j))] for j in idxs]
         return [[j + 1, int(self.obj.check(self.keys[j]))] for j in idxs]
 
     def emit(self, op, ks, a=0, ret=0, probe_idx=(), full=False, lost=0):
-        ev = {"op": op, "ks": [[k + 1, amt] for k, amt in ks], "a": a, "ret": int(ret or 0), "n": self.obj.elements_added,
+        ev = {"op": op, "ks": [[k + 1, amt] for k, amt in ks], "a": a, "ret": int(ret or 0), "n": getattr(self.obj, "elements_added", 0),
               "probes": self.probes(probe_idx), "full": self.full() if full else [], "aux": self.aux(lost)}
         self.tr["ev"].append(ev)
         return ev
@@ -356,6 +385,138 @@ class Rec:
                 break
         self.finish()
 
+    def run_table(self, nev):
+        """HeavyHitters / StreamThreshold: skewed stream; the public table is dumped now and then"""
+        rnd, kind, keys, nkeys = self.rnd, self.kind, self.keys, self.nkeys
+        out = {}
+        try:
+            for step in range(nev):
+                i = min(nkeys - 1, int(rnd.paretovariate(0.9)) - 1) if rnd.random() < 0.7 else rnd.randrange(nkeys)
+                a = rnd.choice([1, 1, 1, 2, 5])
+                if kind == "st" and out.get(i, 0) > 0 and rnd.random() < 0.25:
+                    a = rnd.randint(1, out[i])
+                    ret = self.obj.remove(keys[i], a)
+                    out[i] -= a
+                    ev = self.emit("rem", [(i, a)], ret=ret)
+                else:
+                    ret = self.obj.add(keys[i], a)
+                    out[i] = out.get(i, 0) + a
+                    ev = self.emit("add", [(i, a)], ret=ret)
+                if step % 40 == 39 or step == nev - 1:
+                    ev["full"] = self.full()
+                    ev["aux"] = dict(ev["aux"], dump=1)
+        except Exception as exc:  # noqa
+            self.tr["raised"] = repr(exc)
+        self.c19_battery()
+
+    def run_bits(self, nev):
+        rnd, n = self.rnd, self.tr["m"]
+        try:
+            for step in range(nev):
+                r = rnd.random()
+                batch = [rnd.randrange(n) for _ in range(rnd.randint(1, 300 if self.big else 12))]
+                if rnd.random() < 0.3:   # a stretch around a block / byte boundary
+                    b0 = rnd.choice([4096 * 8, 8192 * 8, 65536 * 8, n, 64, 4096]) % n
+                    batch = [(b0 + d) % n for d in range(-9, 9)]
+                pi = batch[:20] + [rnd.randrange(n) for _ in range(20)] + [0, n - 1]
+                if r < 0.55:
+                    for j in batch:
+                        self.obj.set_bit(j) if rnd.random() < 0.5 else self.obj.__setitem__(j, 1)
+                    ev = self.emit("set", [(j - 1, 1) for j in batch], probe_idx=pi)
+                elif r < 0.95:
+                    for j in batch:
+                        self.obj.clear_bit(j) if rnd.random() < 0.5 else self.obj.__setitem__(j, 0)
+                    ev = self.emit("clr", [(j - 1, 1) for j in batch], probe_idx=pi)
+                else:
+                    self.obj.clear()
+                    ev = self.emit("clear", [], probe_idx=pi)
+                if step % 7 == 6 or step == nev - 1:
+                    ev["ret"] = self.obj.num_bits_set()
+                    ev["full"] = self.full()
+                    ev["aux"] = dict(ev["aux"], dump=1)
+                    if n <= 70000:
+                        fs = set(ev["full"])
+                        self.hcheck(self.obj.as_string() == "".join("1" if i in fs else "0" for i in range(n)), "C20.string.scale", n=n)
+        except Exception as exc:  # noqa
+            self.tr["raised"] = repr(exc)
+
+    def c19_battery(self):
+        """C19 at scale (oracle-free): a battery of read-only calls leaves the exported bytes / tables / counters unchanged; clear() = fresh"""
+        obj, kind, rnd = self.obj, self.kind, self.rnd
+        if kind in ("bits",):
+            return
+        try:
+            if kind == "qf":
+                snap = lambda: (obj.elements_added, obj.quotient, bytes(obj._filter), bytes(obj._is_occupied.bitarray), bytes(obj._is_shifted.bitarray), bytes(obj._is_continuation.bitarray))  # noqa
+            elif kind in ("hh", "st"):
+                snap = lambda: (bytes(obj), obj.elements_added, dict(obj.heavy_hitters if kind == "hh" else obj.meets_threshold))  # noqa
+            else:
+                snap = lambda: (bytes(obj), obj.elements_added)  # noqa
+            before = snap()
+            for j in rnd.sample(range(self.nkeys), min(200, self.nkeys)):
+                obj.check(self.keys[j])
+                self.keys[j] in obj  # noqa
+            obj.check("never-added-key")
+            str(obj)
+            if kind == "qf":
+                obj.get_hashes()
+                obj.print(file=io.StringIO())
+            else:
+                obj.export(io.BytesIO()) if kind != "disk" else obj.export(self.path + ".q")
+                obj.export(self.path + ".q2")
+            if kind in ("bloom", "disk", "cbloom"):
+                obj.estimate_elements(), obj.current_false_positive_rate(), obj.export_hex(), obj.export_size()
+                obj.jaccard_index(obj), obj.union(obj), obj.intersection(obj)
+            if kind in ("cko", "ccko"):
+                obj.load_factor()
+            self.hcheck(snap() == before, "C19.queries_unchanged.scale", kind=kind)
+        except Exception as exc:  # noqa
+            self.hcheck(False, "C19.query_raises.scale", kind=kind, raised=repr(exc))
+        if kind in ("bloom", "disk", "cbloom", "cms", "hh", "st"):
+            try:
+                obj.clear()
+                if kind == "disk":
+                    fresh = self.P.BloomFilterOnDisk(self.path + ".fresh", **self.args)
+                    same = bytes(obj) == bytes(fresh) and obj.elements_added == 0
+                    fresh.close()
+                else:
+                    fresh = type(obj)(**dict(self.args, **({"num_hitters": self.tr["est"]} if kind == "hh" else {"threshold": self.tr["est"]} if kind == "st" else {})))
+                    same = bytes(obj) == bytes(fresh) and obj.elements_added == 0
+                    if kind in ("hh", "st"):
+                        same = same and not (obj.heavy_hitters if kind == "hh" else obj.meets_threshold)
+                self.hcheck(same, "C19.clear_fresh.scale", kind=kind)
+                self.emit("clear", [], probe_idx=[] if kind in ("hh", "st") else rnd.sample(range(self.nkeys), min(30, self.nkeys)))
+            except Exception as exc:  # noqa
+                self.hcheck(False, "C19.clear_raises.scale", kind=kind, raised=repr(exc))
+
+    def c19_battery_disk(self):
+        obj = self.obj
+        before = (bytes(obj), obj.elements_added, open(self.path, "rb").read())
+        for j in self.rnd.sample(range(self.nkeys), min(200, self.nkeys)):
+            obj.check(self.keys[j])
+        str(obj), obj.estimate_elements(), obj.export_hex(), obj.export(self.path + ".q")
+        obj.union(obj), obj.jaccard_index(obj)
+        self.hcheck((bytes(obj), obj.elements_added, open(self.path, "rb").read()) == before, "C19.queries_unchanged.scale", kind="disk")
+
+    def counter_merge(self, done):
+        """counting-Bloom union (a query) / count-min join (modifies the receiver) with a second structure holding a batch of keys"""
+        rnd, kind = self.rnd, self.kind
+        ks = [(j, rnd.choice([1, 2])) for j in rnd.sample(range(self.nkeys), min(300, self.nkeys))]
+        B = type(self.obj)(**self.args)
+        for j, a in ks:
+            B.add(self.keys[j], a)
+        if kind == "cbloom":
+            res = self.obj.union(B)
+            if res is None:
+                self.hcheck(False, "C13.compatible_not_none.scale")
+                return
+            self.tr["ev"].append({"op": "union", "ks": [[j + 1, a] for j, a in ks], "a": 0, "ret": 0, "n": 0, "probes": [], "full": self.full(res), "aux": dict(NOAUX)})
+        else:
+            b0 = bytes(B)
+            self.obj.join(B)
+            self.hcheck(bytes(B) == b0, "C13.join_operand_unchanged.scale")
+            self.emit("join", ks, probe_idx=rnd.sample(range(self.nkeys), 40), full=True)
+
     def cuckoo_step(self, i, r, pi):
         from probables.exceptions import CuckooFilterFullError
 
@@ -456,6 +617,8 @@ class Rec:
                     self.disk_file(adds)
                 if kind in ("bloom", "disk") and b in (2, 7):
                     self.union(rnd.sample(done, 20), batch=rnd.sample(order, min(400, nkeys)))
+                if kind in ("cbloom", "cms") and b in (3, 8):
+                    self.counter_merge(done)
                 if b in (4, 9) and kind != "qf":
                     self.roundtrip()
                     self.reload()
@@ -480,6 +643,8 @@ class Rec:
         except Exception as exc:  # noqa
             self.tr["raised"] = repr(exc)
         self.finish()
+        if kind != "disk" and not self.tr.get("raised"):
+            self.c19_battery()
 
     def big_cuckoo_batch(self, batch, done):
         from probables.exceptions import CuckooFilterFullError
@@ -518,6 +683,8 @@ class Rec:
     def finish(self):
         if self.kind == "disk":
             try:
+                if self.big and not self.tr.get("raised"):
+                    self.c19_battery_disk()
                 self.obj.close()
                 mem = self.P.BloomFilter(**self.args)
                 for ev in self.tr["ev"]:
@@ -566,7 +733,14 @@ def _record(args):
     tmp = tempfile.mkdtemp(prefix="scale-", dir=tlc.scratch_root())
     try:
         rec = Rec(rnd, kind, ti, tmp, big, cfg)
-        rec.run_big() if big else rec.run_long(nev)
+        if kind in ("hh", "st"):
+            rec.run_table(4000 if big else nev * 3)
+        elif kind == "bits":
+            rec.run_bits(60 if big else nev)
+        elif big:
+            rec.run_big()
+        else:
+            rec.run_long(nev)
         return rec.tr, rec.hfails
     finally:
         shutil.rmtree(tmp, ignore_errors=True)
@@ -586,7 +760,7 @@ def run(focus, tier, seed):
         n_long = 1
     jobs = []
     for kind in kinds:
-        if focus not in ("C05", "C11", "C12", "C15"):
+        if focus not in ("C05", "C11", "C12", "C15", "C19"):
             for _ in range(n_long):
                 jobs.append((seed, kind, len(jobs), False, nev))
         cfgs = BIG[kind]
@@ -611,7 +785,7 @@ def run(focus, tier, seed):
             total.fail(clause.split(".")[0], clause, ENGINE, {"kind": tr["kind"], "big": tr["big"], "config": {k: tr[k] for k in ("m", "k", "w", "d", "est", "qmax", "q", "auto")}, "detail": detail},
                        {"kind": tr["kind"], "big": tr["big"]})
         if tr.get("raised"):
-            prop = {"qf": "C04", "cms": "C02", "cbloom": "C08", "ebf": "C09", "rbf": "C10", "cko": "C03", "ccko": "C03", "disk": "C11"}.get(tr["kind"], "C01")
+            prop = {"qf": "C04", "cms": "C02", "cbloom": "C08", "ebf": "C09", "rbf": "C10", "cko": "C03", "ccko": "C03", "disk": "C11", "hh": "C17", "st": "C17", "bits": "C20"}.get(tr["kind"], "C01")
             for pr in {prop, focus} & set(SERVES) if focus in SERVES and tr["kind"] in SERVES[focus] else {prop}:
                 total.fail(pr, f"{pr}.call_raises.scale", ENGINE, {"kind": tr["kind"], "big": tr["big"], "raised": tr["raised"], "events_before": len(tr["ev"]),
                                                                   "config": {k: tr[k] for k in ("m", "k", "w", "d", "est", "qmax", "q", "auto")}}, {"kind": tr["kind"], "big": tr["big"]})
@@ -634,7 +808,7 @@ def run(focus, tier, seed):
                                                              "event_index": idx, "event": {"op": e["op"], "keys_in_batch": len(e["ks"]), "n": e["n"], "probes": e["probes"][:12], "aux": e["aux"]}},
                            {"kind": tr["kind"], "big": tr["big"]})
             for prop, cl in (("C01", "C01.present"), ("C02", "C02.bounds"), ("C03", "C03.kept"), ("C04", "C04.member"), ("C08", "C08.cb_lower"), ("C09", "C09.cap"),
-                             ("C10", "C10.window"), ("C12", "C12.cells"), ("C14", "C14.count")):
+                             ("C10", "C10.window"), ("C12", "C12.cells"), ("C14", "C14.count"), ("C17", "C17.table"), ("C20", "C20.bits")):
                 total.ok(prop, cl + ".scale", len(tr["ev"]))
     t0 = traces[0]
     total.sample({"kind": t0["kind"], "big": t0["big"], "config": {k: t0[k] for k in ("m", "k", "w", "d", "est", "qmax", "q", "auto")}, "keys": len(t0["pos"]),
